@@ -150,6 +150,22 @@ def check_source(ctx, src, tag, files=False):
     if not lexcmp.tokens_equal(pt, pc):
         ctx.violation('tokenisation differs between one chunk and per-line chunks', case)
         return
+    # the same Lexer object fed in several calls (what Lua.update_from_lines does when code arrives in portions): same tokens, and
+    # the line numbers go on counting
+    ends = [t.off + len(t.raw) for t in rt if t.kind == 'newline']
+    if len(ends) >= 2 and ctx.monitors.get('chunked_runs_compared', 0) % 2 == 0:
+        k = ctx.rng.randint(1, min(3, len(ends) - 1))
+        cuts = sorted(ctx.rng.sample(ends[:-1], k))
+        try:
+            pm = lexcmp.picotool_tokens_in_calls(src, cuts)
+        except Exception as e:
+            ctx.violation('text handed to one lexer in %d calls (cut at line ends %s): lexer raised %s' % (k + 1, cuts, e), case)
+            return
+        ctx.monitor('multi_call_runs_compared')
+        dm = lexcmp.first_divergence(rt, pm)
+        if dm is not None:
+            ctx.violation('text handed to one lexer in %d calls (cut at line ends %s): token %d: %s' % (k + 1, cuts, dm[0], dm[1]), case)
+            return
     if files and b'\r' not in src and b'\x00' not in src:
         from pico8.game import file as p8file
         import tempfile, os
@@ -503,6 +519,8 @@ def gates(m, tier):
     if f.get('long_line_sources', 0) < 30 or min(f.get('long_line_over_%dk' % k, 0) for k in (8, 16, 32, 64)) < 2:
         missed.append('long physical lines: %d (over 8k/16k/32k/64k: %s)' % (
             f.get('long_line_sources', 0), [f.get('long_line_over_%dk' % k, 0) for k in (8, 16, 32, 64)]))
+    if mon.get('multi_call_runs_compared', 0) < 300:
+        missed.append('texts handed to one lexer in several calls: %d' % mon.get('multi_call_runs_compared', 0))
     if mon.get('chunked_runs_compared', 0) < 1000:
         missed.append('chunked runs compared: %d' % mon.get('chunked_runs_compared', 0))
     if mon.get('listtokens_runs', 0) < 10:
